@@ -205,7 +205,8 @@ fn run_seq(sc: &Value) {
             _ => {}
         }
     }
-    in_lib(|| drop(inj.take()));
+    let taken = inj.take();
+    let _ = std::panic::catch_unwind(std::panic::AssertUnwindSafe(move || in_lib(|| drop(taken))));
 }
 
 /// other shapes: one fixed script each (await original, fake, await twice, drop, await)
